@@ -82,8 +82,8 @@ func (Prop) Describe(t vp.Tier) vp.Description {
 			"of that under -race, and under -asan in the thorough tier); limits = 79 templates scaled through N in {10..2e5} (quick: N <= 300 for all, " +
 			"2^15+-1 for 22 templates, 2^16+-1 for 2; -race: N in {10,256,257} quick, N <= 300 plus 22 templates at 2^15+-1 thorough) plus a bisection of " +
 			"the largest N that compiles for 4 / 22 jump templates; stdlib = every function reachable from _G, package.loaded, the string/file/context/" +
-			"resources metatables and returned functions x tuples from an edge pool (exhaustive for arity <= 2 over the 36-value core pool in the quick " +
-			"tier and the 104-value pool in the thorough tier, 1e5 / 2e6 sampled tuples of arity 2-4; every 10th call under -race in the quick tier; " +
+			"resources metatables and returned functions x tuples from an edge pool (exhaustive for arity <= 2 over the 41-value core pool in the quick " +
+			"tier and the 117-value pool in the thorough tier, 1e5 / 2e6 sampled tuples of arity 2-4; every 10th call under -race in the quick tier; " +
 			"core-pool pairs and 5e5 sampled tuples under -race and -asan in the thorough tier); reentry = 73 programs recursing without bound through every metamethod and library callback " +
 			"under 2 (quick) / 3 (thorough) limit sets. " +
 			"A case is non-trivial when it got past the parser (compiled, or was rejected by the compiler back end) or, for a library call, " +
